@@ -57,7 +57,7 @@ def error_ctor_calls(model: Model, f: FuncInfo) -> t.List[t.Tuple[Node, ast.Call
 # ---------------------------------------------------------------------------- C07
 
 
-KEY_FORMS = re.compile(r'^(KEY\(VAL\)|INDEX\(.*\))$')
+KEY_FORMS = re.compile(r'^(KEY\(VAL\)|INDEX\((?:.*[(, ])?VAL(?:[), ].*)?\))$')      # a key of the input, or a position *in the input*
 
 
 def rule_c07_r1(model: Model) -> RuleResult:
@@ -321,6 +321,12 @@ def rule_c08_r1(model: Model) -> RuleResult:
                     h = model.find_method(q, c.func.attr)
                     if h is not None and h not in closure and h.cls is not None and h.cls.qualname in error_node_classes(model):
                         closure.append(h)
+                # private functions of the module the node itself is handed to (`_fuse(self)`, `_format(self.cause)`)
+                if isinstance(c, ast.Call) and g.params and any(isinstance(x, ast.Name) and x.id == g.params[0] for a_ in c.args for x in ast.walk(a_)):
+                    hq = model.resolve(c.func, g.module, g if isinstance(g.node, ast.FunctionDef) else None)
+                    h2 = model.functions.get(hq or '')
+                    if h2 is not None and h2 not in closure and h2.module is g.module and isinstance(h2.node, ast.FunctionDef):
+                        closure.append(h2)
         used = {s.attr for g in closure for s in ast.walk(g.node) if isinstance(s, ast.Attribute) and isinstance(s.ctx, ast.Load)}
         fields = error_fields(model, q)
         miss = [x for x in fields if x not in used]
@@ -657,8 +663,19 @@ def rule_cause_rendered(model: Model, rule_id: str = 'C08-R9') -> RuleResult:
             if n.kind == 'cond' and nz.literal(n.ast, n)[0] in none_tests:
                 continue
             roots = node_exprs(n)
-            if any(isinstance(x, ast.Attribute) and x.attr == 'cause' and isinstance(x.value, ast.Name) and x.value.id == me
-                   for root in roots for x in walk_no_nested(root)):
+            hit = False
+            for root in roots:
+                for x in walk_no_nested(root):
+                    if isinstance(x, ast.Attribute) and x.attr == 'cause' and isinstance(x.value, ast.Name) and x.value.id == me:
+                        hit = True
+                    elif isinstance(x, ast.Name) and isinstance(x.ctx, ast.Load) and x.id != me:
+                        try:
+                            if nz.expr(x, n) == f'{nz.param_map.get(me, me)}.cause':
+                                hit = True     # a local alias of the cause (`cause = self.cause`)
+                        except AnalysisError:
+                            pass
+            if hit and not (n.kind == 'stmt' and isinstance(n.ast, (ast.Assign, ast.AnnAssign)) and isinstance(n.ast.value, ast.Attribute)
+                            and n.ast.value.attr == 'cause'):
                 uses.append(n)
         if not uses:
             r.fail(pe.qualname, 'cause never rendered', pe.loc(), "the underlying exception never appears in the message")
